@@ -19,7 +19,7 @@ def main():
         import traceback
         traceback.print_exc()
         run.oblige("harness completed", False, repr(ex))
-        run.violation("harness error: %r" % (ex,), {"kind": "harness", "operation": "run"}, found_input=False)
+        run.violation("harness error: %r" % (ex,), {"kind": "harness", "operation": "run", "traceback": traceback.format_exc()[-3000:]}, found_input=False)
     return run.finish()
 
 
